@@ -156,9 +156,9 @@ def r20_1(ctx):
                   expected="if %s not in [<names the methods read>]: raise" % arg, found=found, fi=g, sample={"fn": fname, "guard": found})
     f = P.own_method("Stage", "_sample")
     sc = ctx.scope(f)
-    chain = [i for i in walk_no_nested(f.node) if isinstance(i, ast.If) and norm_text(i.test).startswith("grid==")]
-    last = [i for i in chain if i.orelse and not (len(i.orelse) == 1 and isinstance(i.orelse[0], ast.If))]
-    ok = len(last) == 1 and any(isinstance(x, ast.Raise) for x in last[0].orelse)
+    from .c07 import sample_dispatch
+    disp = sample_dispatch(ctx)
+    ok = disp.get(("no_such_grid", None)) == "<raise>" and all(v != "<raise>" and not str(v).startswith("<unknown") for k_, v in disp.items() if k_[0] != "no_such_grid")
     ctx.check(ok, "Stage._sample: unknown grid rejected", detail="unknown grid name in sample", expected="final else: raise", found="", fi=f)
     # 9c. a DAE must be square: as many algebraic equations as algebraic variables (otherwise equations are dropped or variables left free)
     f = P.own_method("Stage", "_ode")
